@@ -144,6 +144,27 @@ def run_units(ctx: Ctx, units: t.Sequence[Unit]) -> None:
         ctx.corr[u.name] = st
 
 
+def run_flow_semantics(ctx: Ctx) -> None:
+    """Properties that rest on flow tie theorems also validate the semantics those theorems are stated in: the functions of
+    vlib/pysem_src.py run as regenerated flows in the extracted interpreter (standard world, empty extension) and in CPython."""
+    if not any(k.startswith("k_flow_") and ctx.prop in v.get("props", []) for k, v in ctx.kernels.items()):
+        return
+    from . import pysem
+
+    with core.build_lock():
+        r = core.make(["Model/Units_pysem.vo"])
+        okm, msg = core.ensure_modelrun("pysem") if r["ok"] else (False, "Model/Units_pysem.vo does not build")
+    if not okm:
+        ctx.violation("no-failing-input-found", "correspondence:flow.semantics", {"errors": str(r.get("errors") or msg)[:800]})
+        return
+    area = ctx.area
+    ctx.area = "pysem"
+    try:
+        run_units(ctx, pysem.units(ctx))
+    finally:
+        ctx.area = area
+
+
 def build_and_prove(ctx: Ctx, mod) -> bool:
     """Regenerate kernels, build the model and the property's proof cone. Returns True when every
     obligation of the property is discharged."""
@@ -239,6 +260,7 @@ def run_check(prop: str, tier: str, seed: int) -> int:
         if not ctx.extra.get("model_build_failed"):
             units = mod.units(ctx)
             run_units(ctx, units)
+            run_flow_semantics(ctx)
             if hasattr(mod, "oracles"):
                 mod.oracles(ctx)
         if proved and ctx.thorough and os.environ.get("VERIF_COQCHK", "1") != "0":
